@@ -10,7 +10,7 @@ Driver for C05.  Two kinds of lines.
   * `<pview>` = `pid:managed:inst/uptime/stopping,...` for EVERY process of the Context, copies in the order the real
     `running_identifiers` set is iterated (`-` when not listed anywhere);
   * `<impl calls>`: what the strategy called on `stopper` / `failure_handler`, in order: `stopOn:pid:i,j` `stopAll:pid`
-    `restart:pid` `failJob:pid` `next` `failTrigger` `err:<Class>` (`-` when nothing);
+    `restart:pid` `failJob:pid` `next` `failTrigger` `triggered` (a call made with trigger=True) `err:<Class>` (`-` when nothing);
   * `<impl requests>` (modes `exact`, `lax`; `-` in mode `sink`): `rpc=p.i,..;def=p,..;starts=p,..` = stop requests sent
     through `rpc_handler.send_stop_process` until the jobs are over (sorted), `Stopper.process_start_requests` right after
     the call, effective `starter.start_process` calls (process stopped when called);
@@ -63,6 +63,7 @@ def parseAction (ctx : View) (w : String) : Option Action :=
   | ["restart", p] => p.toNat?.map (fun p => .restart (findView ctx p))
   | ["failJob", p] => p.toNat?.map (fun p => .failJob (findView ctx p))
   | ["next"] => some .stopperNext
+  | ["triggered"] => some .stopperNext      -- a `trigger=True` call: the Stopper is triggered at once
   | ["failTrigger"] => some .failTrigger
   | _ => none
 
